@@ -1821,10 +1821,16 @@ def connackFlags (w : World) (sp : Bool) : World :=
   { w with connReady := true, waitExp := 0,
            connectReturned := if w.connectReturned.isNone then some sp else w.connectReturned }
 
-def connackTasks (w : World) (sp : Bool) : World :=
-  pushTask (if w.initialized ∧ (¬ sp ∨ w.cfg.always) then pushTask w .resubscribe else w) .retry
+/-- `pushTask` refuses once Disconnect was called -/
+def connackResub (w : World) (sp : Bool) : World :=
+  if w.initialized ∧ (¬ sp ∨ w.cfg.always) ∧ ¬ w.stopped then pushTask w .resubscribe else w
 
-def connackUp (w : World) (k : Nat) : World := { w with initialized := true, phase := .up k }
+def connackRetry (w : World) : World := if w.stopped then w else pushTask w .retry
+
+def connackTasks (w : World) (sp : Bool) : World := connackRetry (connackResub w sp)
+
+def connackUp (w : World) (k : Nat) : World :=
+  { w with initialized := true, phase := if w.stopped then .exited else .up k }
 
 def connackPost (w : World) (k : Nat) (sp : Bool) : World :=
   connackUp (connackTasks (connackFlags w sp) sp) k
@@ -1847,21 +1853,51 @@ theorem connackPre_envSame (w : World) (k : Nat) (sp : Bool) : EnvSame w (connac
 theorem connackPost_inv {w : World} (k : Nat) (sp : Bool) (hI : Inv12 w) :
     Inv12 (connackPost w k sp) := by
   have h1 : Inv12 (connackFlags w sp) := hI.env (EnvSame.of_conns rfl rfl rfl rfl) rfl rfl
-  have h2 : Inv12 (connackTasks (connackFlags w sp) sp) := by
-    unfold connackTasks
+  have h2 : Inv12 (connackResub (connackFlags w sp) sp) := by
+    unfold connackResub
     split
-    · exact (h1.pushMisc _ rfl).pushMisc _ rfl
     · exact h1.pushMisc _ rfl
-  exact h2.env (EnvSame.of_conns rfl rfl rfl rfl) rfl rfl
+    · exact h1
+  have h3 : Inv12 (connackTasks (connackFlags w sp) sp) := by
+    unfold connackTasks connackRetry
+    split
+    · exact h2
+    · exact h2.pushMisc _ rfl
+  exact h3.env (EnvSame.of_conns rfl rfl rfl rfl) rfl rfl
 
 theorem connackPost_accepted (w : World) (k : Nat) (sp : Bool) :
     (connackPost w k sp).accepted = w.accepted := by
-  unfold connackPost connackUp connackTasks
-  split <;> rfl
+  unfold connackPost connackUp connackTasks connackRetry connackResub
+  split <;> split <;> rfl
 
-theorem connectFailed_envSame (w : World) (k : Nat) : EnvSame w (connectFailed w k) :=
-  EnvSame.of_pkts rfl rfl rfl (kill_len { w with connReady := true } k)
-    (allPkts_kill { w with connReady := true } k)
+/-- the fields `connectFailed` leaves alone (it kills connection `k`, sets `connReady` and moves
+    the reconnect loop on) -/
+structure CFSame (w : World) (k : Nat) (w' : World) : Prop where
+  taskQ : w'.taskQ = w.taskQ
+  retryQ : w'.retryQ = w.retryQ
+  broker : w'.broker = w.broker
+  stuck : w'.stuck = w.stuck
+  pid : w'.pid = w.pid
+  accepted : w'.accepted = w.accepted
+  cli : w'.cli = w.cli
+  conns : w'.conns = (kill { w with connReady := true } k).conns
+  initialized : w'.initialized = w.initialized
+  gConnected : w'.gConnected = w.gConnected
+  goroutine : w'.goroutine = w.goroutine
+  phase : ∀ k', w'.phase ≠ .connackGate k'
+
+theorem connectFailed_same (w : World) (k : Nat) : CFSame w k (connectFailed w k) := by
+  unfold connectFailed
+  simp only
+  split
+  · exact ⟨rfl, rfl, rfl, rfl, rfl, rfl, rfl, rfl, rfl, rfl, rfl, fun _ h => by cases h⟩
+  · exact ⟨rfl, rfl, rfl, rfl, rfl, rfl, rfl, rfl, rfl, rfl, rfl, fun _ h => by cases h⟩
+
+theorem connectFailed_envSame (w : World) (k : Nat) : EnvSame w (connectFailed w k) := by
+  have h := connectFailed_same w k
+  refine EnvSame.of_pkts h.pid h.accepted h.cli ?_ ?_
+  · rw [h.conns]; exact kill_len { w with connReady := true } k
+  · rw [allPkts_congr h.conns]; exact allPkts_kill { w with connReady := true } k
 
 /-- how `step` changes the list of accepted requests -/
 def AccStep (w : World) (e : Ev) (w' : World) : Prop :=
@@ -1895,7 +1931,9 @@ theorem step_inv {w : World} (e : Ev) (hI : Inv12 w)
     simp only [step]
     split
     · exact ⟨hI, Or.inl rfl⟩
-    · exact ⟨hI.env (EnvSame.of_conns rfl rfl rfl rfl) rfl rfl, Or.inl rfl⟩
+    · split
+      · exact ⟨hI.env (EnvSame.of_conns rfl rfl rfl rfl) rfl rfl, Or.inl rfl⟩
+      · exact ⟨hI.env (EnvSame.of_conns rfl rfl rfl rfl) rfl rfl, Or.inl rfl⟩
   | connackOk sp inb =>
     by_cases h : ∃ k, w.phase = .connackGate k
     · obtain ⟨k, hk⟩ := h
@@ -1909,16 +1947,18 @@ theorem step_inv {w : World} (e : Ev) (hI : Inv12 w)
     simp only [step]
     split
     · rename_i k _
-      have := progress_inv (hI.env (connectFailed_envSame w k) rfl rfl)
-      exact ⟨this.1, Or.inl this.2.accepted⟩
+      have := progress_inv (hI.env (connectFailed_envSame w k) (connectFailed_same w k).taskQ
+        (connectFailed_same w k).retryQ)
+      exact ⟨this.1, Or.inl (this.2.accepted.trans (connectFailed_same w k).accepted)⟩
     · exact ⟨hI, Or.inl rfl⟩
   | connackNever =>
     simp only [step]
     split
     · rename_i k _
       split
-      · have := progress_inv (hI.env (connectFailed_envSame w k) rfl rfl)
-        exact ⟨this.1, Or.inl this.2.accepted⟩
+      · have := progress_inv (hI.env (connectFailed_envSame w k) (connectFailed_same w k).taskQ
+          (connectFailed_same w k).retryQ)
+        exact ⟨this.1, Or.inl (this.2.accepted.trans (connectFailed_same w k).accepted)⟩
       · exact ⟨hI, Or.inl rfl⟩
     · exact ⟨hI, Or.inl rfl⟩
   | peerClose =>
